@@ -4,6 +4,8 @@ import (
 	"context"
 	"errors"
 	"fmt"
+	"math"
+	"math/big"
 
 	"go.etcd.io/bbolt"
 )
@@ -114,8 +116,18 @@ func (p *PPM) Value() int64 {
 }
 
 // Compute calculates the premium in satoshis for a given amount in satoshis.
+// The product is computed with arbitrary precision so that large amounts do not
+// wrap around; a result that does not fit into an int64 saturates.
 func (p *PPM) Compute(amtSat uint64) (sat int64) {
-	return int64(amtSat) * p.ppmValue / premiumRateParts
+	product := new(big.Int).Mul(new(big.Int).SetUint64(amtSat), big.NewInt(p.ppmValue))
+	product.Quo(product, big.NewInt(premiumRateParts))
+	if product.IsInt64() {
+		return product.Int64()
+	}
+	if product.Sign() < 0 {
+		return math.MinInt64
+	}
+	return math.MaxInt64
 }
 
 // Premium rate operations
